@@ -1,5 +1,5 @@
 """C17 — shared instance state is never locked re-entrantly or seen half-updated (LOCK-1..5)."""
-from sa import mir
+from sa import mir, dataflow as df, conds as cnd
 from sa.callgraph import callgraph
 from sa.facts import AnchorMissing
 
@@ -112,6 +112,8 @@ def _run(ctx):
     rep.rule("LOCK-2", "PtpInstanceState::bmca and everything reachable from it is lock-free", floor=1)
     rep.rule("LOCK-3", "lock-order graph over {instance state, SharedClock mutex} is acyclic", floor=1)
     rep.rule("LOCK-4", "no function runs two data-set-writing critical sections in sequence or in a loop", floor=2)
+    rep.rule("LOCK-6", "whether a data-set-writing critical section runs is never decided by a value read under the lock "
+                       "earlier in the same function (no check-then-act across critical sections)", floor=2)
     rep.rule("LOCK-5", "each PtpInstanceStateMutex impl acquires exactly once per call and drops the guard on "
                        "every path", floor=4)
     for cfgname, p in progs:
@@ -250,6 +252,101 @@ def check_prog(ctx, rep, cfgname, prog):
             w.extend((n.key, ln) for (_, ln) in writes_ds(n))
         if w:
             wsites.setdefault(b.key, []).append((bi, t, w))
+    # ---- LOCK-6 no check-then-act across critical sections: whether a data-set-writing section runs must not be
+    # decided by a value that was read from the lock earlier in the same function (the state may have changed in
+    # between: the write then lands on top of another thread's update - a mixture of two updates)
+    may_lock = set(lock_bodies.keys())
+    work_ = list(may_lock)
+    callers_ = {}
+    for b_ in prog.bodies.values():
+        for (tg, site) in cg.succs(b_):
+            if not isinstance(tg, tuple):
+                callers_.setdefault(tg.key, set()).add(b_.key)
+    while work_:
+        k_ = work_.pop()
+        for ck in callers_.get(k_, ()):
+            if ck not in may_lock:
+                may_lock.add(ck)
+                work_.append(ck)
+
+    def reads_lock(tree, body):
+        """does the expression tree contain a call that takes the instance-state lock (with_ref/with_mut or a function
+        that reaches one)?"""
+        tree = df.strip(tree)
+        if tree[0] == "call":
+            if tree[2] in ("with_ref", "with_mut"):
+                return tree[2]
+            tgt = cg.lookup(body.unit, tree[1])
+            if tgt is not None and tgt.key in may_lock and tgt.unit.name == "statime-lib":
+                return tgt.key
+            for a in tree[3]:
+                r = reads_lock(a, body)
+                if r:
+                    return r
+            return None
+        for sub in df.leaves_and_nodes(tree) if hasattr(df, "leaves_and_nodes") else ():
+            pass
+        k = tree[0]
+        subs = []
+        if k == "bin":
+            subs = [tree[2], tree[3]]
+        elif k in ("un", "cast"):
+            subs = [tree[2]]
+        elif k == "agg":
+            subs = [x for _, x in tree[3]]
+        elif k in ("ref", "deref", "discr", "promoted", "field"):
+            subs = [tree[1]]
+        elif k == "phi":
+            subs = list(tree[1])
+        for x in subs:
+            r = reads_lock(x, body)
+            if r:
+                return r
+        return None
+
+    for k in sorted(wsites):
+        b = prog.bodies[k]
+        if b.is_test() or b.unit.name != "statime-lib":
+            continue
+        cc = cnd.conds(prog, b)
+        for (bi, t, w) in wsites[k]:
+            bad = None
+            for l in cc.must_literals(bi):
+                trees = [l[1]] if l[0] in ("bool", "variant", "int") else [l[2], l[3]]
+                for tr in trees:
+                    r = reads_lock(tr, b)
+                    if r:
+                        bad = (cnd.lit_canon(l, b), r)
+            construct = "with_mut@%s" % (w[0][0].split("::")[-1] if w else "?")
+            if bad:
+                # a section that rewrites the parent data set as a whole (identity AND attributes, as the S1 update does)
+                # leaves a consistent single update behind even if its trigger went stale; only a PARTIAL rewrite can
+                # mix two updates
+                from sa.stores import stores as _stores
+                GROUP = {"parent_port_identity", "grandmaster_identity", "grandmaster_clock_quality",
+                         "grandmaster_priority_1", "grandmaster_priority_2"}
+                written = set()
+                cb_ = closure_arg_body(cg, b, t)
+                order_, _ = cg.reachable([cb_]) if cb_ is not None else ([], None)
+                for n_ in order_:
+                    if isinstance(n_, tuple):
+                        continue
+                    sts_, _pv = _stores(n_, include_locals=False)
+                    for s_ in sts_:
+                        if "parent_ds" in s_["lhs"]:
+                            suf = s_["lhs"].split("parent_ds", 1)[1].lstrip(".")
+                            written.add(suf.split(".")[0] if suf else "")
+                if "" in written or GROUP <= written or not (written & GROUP):
+                    bad = None
+            if bad:
+                rep.violation("LOCK-6", b.key + tag, construct,
+                              "the data-set-writing critical section at line %d runs only when `%s` - a value read from the "
+                              "instance state in an EARLIER critical section (%s): another thread can change the state in "
+                              "between, so the write mixes two updates" % (t["sp"][1], bad[0], bad[1]),
+                              where="%s:%d" % (b.file, t["sp"][1]))
+            else:
+                rep.ok("LOCK-6", b.key + tag, construct, where="%s:%d" % (b.file, t["sp"][1]))
+
     # summary: bodies that may run a W critical section (themselves or through callees, outside closures of
     # lock sites, which LOCK-1 already shows lock-free)
     may_w = set(wsites.keys())
